@@ -3,14 +3,17 @@ import RedisVerif.Driver.Codec
 import RedisVerif.Model.AntiEntropy
 
 /-
-  C18 sub-driver (stateful).  The state holds the tables of REAL hash values that instantiate
-  the model's abstract `Hasher` (key hash per key, value hash per value stream (`AE.currentStream`),
-  word-stream hash per stream) and two state slots `a`, `b` with their real iteration orders.
+  C18 sub-driver (stateful).  The model HASHES ITSELF: `AE.currentHasher` = SipHash-1-3 (zero key,
+  `Model/SipHash.lean`) over the byte streams of `Model/HashBytes.lean` / `AE.byteStream`.  The op
+  lines still carry the REAL hash values (`KeyDigest::new`'s key hash and value hash, the hashes of
+  the word streams `from_digests` / `combine` consumed); the driver only COMPARES them with what
+  the model computes (`conflicts`).  Two state slots `a`, `b` with their real iteration orders.
 
-    RESET                                              forget tables and slots          → ok
+    RESET                                              forget the slots                 → ok
+    SIP <hex>                                          DefaultHasher over raw bytes     → <u64>
     S <a|b> <depth> <n> (<keyhex> <kh> <vh> <rv>)*n    state in REAL iteration order,
                                                        with KeyDigest::new's hashes     → ok <n> conflicts=<c>
-    W <m> (<len> <word>*len <hash>)*m                  word-stream hash table entries   → ok
+    W <m> (<len> <word>*len <hash>)*m                  word streams and their real hash → ok conflicts=<c>
     D <a|b>                                            StateDigest::from_state          → root=… count=… maxts=… nb=<#buckets> buckets=<i>:h:c:m,… (non-empty ones)
     ALLOC <depth>                                      what `1 << depth` buckets allocate → buckets <n> | panic capacity-overflow
     CMP <x> <y>                                        differs_from, divergent_buckets  → differs=<0|1> div=<list>
@@ -20,9 +23,8 @@ import RedisVerif.Model.AntiEntropy
                                                        create_sync_request, handle_sync_request, merge
                                                                                         → differs=… div=… resp=<keyhex>,… | <slot> <n> (<keyhex> <rv>)*
 
-  A hash the tables do not contain evaluates to 2^64 (not a u64), which surfaces as a
-  disagreement; `conflicts` counts table entries that would make a hash a non-function of what
-  the model says it is a function of.
+  `conflicts` counts carried hashes that differ from the model's: a change of what the code feeds
+  to the hasher (order, separators, a dropped field) or of the hash function surfaces here first.
 -/
 namespace RedisVerif.Driver.C18
 open RedisVerif RedisVerif.Driver RedisVerif.AE
@@ -33,32 +35,22 @@ structure Slot where
   state : NMap RV
 
 structure St where
-  keyTab : List (Nat × Nat)
-  valTab : List (List Nat × Nat)
-  wordsTab : Std.HashMap (List Nat) Nat
   a : Slot
   b : Slot
 
 def Slot.empty : Slot := { depth := 0, order := [], state := [] }
 
-def St.init : St := { keyTab := [], valTab := [], wordsTab := {}, a := Slot.empty, b := Slot.empty }
+def St.init : St := { a := Slot.empty, b := Slot.empty }
 
-def missing : Nat := 18446744073709551616
+/-- the hasher of the current tree (SipHash-1-3 over the model's byte streams) -/
+def St.hasher (_ : St) : Hasher := currentHasher
 
-def St.hasher (st : St) : Hasher :=
-  { key := fun k => (st.keyTab.lookup k).getD missing
-    val := fun stream => (st.valTab.lookup stream).getD missing
-    words := fun ws => (st.wordsTab.get? ws).getD missing }
+/-- the model's string decoder is the codec's on every code the codec produces -/
+theorem keyCode_eq_code : @keyCode = @HB.code := rfl
 
-/-- byte-wise lexicographic `≤` — Rust's `String::cmp` on the UTF-8 bytes -/
-def bytesLe : List Nat → List Nat → Bool
-  | [], _ => true
-  | _ :: _, [] => false
-  | x :: xs, y :: ys => if x < y then true else if y < x then false else bytesLe xs ys
-
-/-- the key order of `get_keys_in_buckets`, on key codes (NOT the order of the codes, which is
-    length-first) -/
-def keyLe (a b : Nat) : Bool := bytesLe (keyDecode a) (keyDecode b)
+/-- the key order of `get_keys_in_buckets`: byte-wise `String::cmp` on the decoded keys (NOT the
+    order of the codes, which is length-first) -/
+def keyLe (a b : Nat) : Bool := HB.bytesLe (HB.keyStr a) (HB.keyStr b)
 
 def slotTok : P Bool := do
   let t ← tok
@@ -97,32 +89,28 @@ def cmd (st : St) : P (St × String) := do
   let op ← tok
   match op with
   | "RESET" => pure (St.init, "ok")
+  | "SIP" => do
+    let b ← bytesTok
+    pure (st, toString (Sip.sip13 b))
   | "S" => do
     let isA ← slotTok
     let depth ← nat
     let n ← nat
     let es ← repeatP n entry
-    -- extend the tables, counting conflicts
-    let (kt, vt, c) := es.foldl (fun (acc : List (Nat × Nat) × List (List Nat × Nat) × Nat) e =>
-      let (kt, vt, c) := acc
+    -- compare the carried (real) hashes with the model's
+    let c := es.foldl (fun (c : Nat) e =>
       let (k, kh, vh, v) := e
-      let pk := currentStream v
-      let (kt, c) := match kt.lookup k with
-        | some x => (kt, if x == kh then c else c + 1)
-        | none => ((k, kh) :: kt, c)
-      let (vt, c) := match vt.lookup pk with
-        | some x => (vt, if x == vh then c else c + 1)
-        | none => ((pk, vh) :: vt, c)
-      (kt, vt, c)) (st.keyTab, st.valTab, 0)
+      let c := if currentHasher.key k == kh then c else c + 1
+      if currentHasher.val (currentStream v) == vh then c else c + 1) 0
     -- the op line carries the CONFIGURED depth; every model function gets the effective one
     let slot : Slot := { depth := effectiveDepth currentDepthBound depth, order := es.map (·.1), state := NMap.ofList (es.map fun e => (e.1, e.2.2.2)) }
-    let st' := { st with keyTab := kt, valTab := vt }
-    let st' := if isA then { st' with a := slot } else { st' with b := slot }
+    let st' := if isA then { st with a := slot } else { st with b := slot }
     pure (st', s!"ok {slot.state.length} conflicts={c}")
   | "W" => do
     let m ← nat
     let es ← repeatP m wordsEntry
-    pure ({ st with wordsTab := es.foldl (fun m e => m.insert e.1 e.2) st.wordsTab }, "ok")
+    let c := es.foldl (fun (c : Nat) e => if currentHasher.words e.1 == e.2 then c else c + 1) 0
+    pure (st, s!"ok conflicts={c}")
   | "D" => do
     let isA ← slotTok
     pure (st, showDigest (slotDigest st (st.slot isA)))
